@@ -5,6 +5,7 @@ Property theorems only.
 import ConfModel.Lemmas.WireChecks
 import ConfModel.Lemmas.ConnectJson
 import ConfModel.Lemmas.BinMeta
+import ConfModel.Model.Capture
 import ConfModel.Generated.C13Facts
 import ConfModel.Spec.ContentCoding
 namespace ConfModel.Props.C13
@@ -940,6 +941,50 @@ example : checkBinaryMetadata [(bs "a-bin", [bs "QQ==", bs "!"]), (bs "b-bin", [
   decide
 
 end BinaryMetadata
+
+/-! ## The examiner sees exactly the bytes the client received
+
+The body of a unary Connect error reaches `examineConnectError` through the capturing reader
+(`wireReader`).  Capture is the identity on bodies of ANY length, under ANY chunking. -/
+section CaptureIdentity
+open ConfModel.Capture
+
+theorem capture_foldl (chunks : List Capture.Bytes) (st : St) :
+    (chunks.foldl Capture.read st).buf = st.buf ++ chunks.flatten ∧
+    (chunks.foldl Capture.read st).delivered = st.delivered ++ chunks.flatten := by
+  induction chunks generalizing st with
+  | nil => simp
+  | cons c t ih =>
+    have := ih (Capture.read st c)
+    simp only [List.foldl_cons, List.flatten_cons]
+    constructor
+    · rw [this.1]; simp [Capture.read, List.append_assoc]
+    · rw [this.2]; simp [Capture.read, List.append_assoc]
+
+/-- **Capture is the identity**: whatever the length of the body and however it is cut into
+reads, the buffer the examiner is given holds exactly the body - the bytes the client received. -/
+theorem capture_identity (chunks : List Capture.Bytes) :
+    (run chunks).buf = chunks.flatten ∧ (run chunks).delivered = chunks.flatten ∧
+    (run chunks).buf = (run chunks).delivered := by
+  have := capture_foldl chunks { buf := [], delivered := [] }
+  simp only [List.nil_append] at this
+  exact ⟨this.1, this.2, by rw [run, this.1, this.2]⟩
+
+/-- …hence two ways of cutting the same body are examined alike. -/
+theorem capture_chunking_independent (a b : List Capture.Bytes) (h : a.flatten = b.flatten) :
+    (run a).buf = (run b).buf := by
+  rw [(capture_identity a).1, (capture_identity b).1, h]
+
+example : [[(1 : UInt8), 2], [], [3]].flatten = [[(1 : UInt8)], [2, 3]].flatten := by decide
+
+/-- Witness that the statement discriminates: a reader that stops copying at a capacity hands
+the examiner a proper prefix of what the client received. -/
+theorem capped_capture_witness :
+    (runCapped 4 [[1, 2, 3], [4, 5], [6]]).buf = [1, 2, 3, 4] ∧
+    (runCapped 4 [[1, 2, 3], [4, 5], [6]]).delivered = [1, 2, 3, 4, 5, 6] ∧
+    (run [[1, 2, 3], [4, 5], [6]]).buf = [1, 2, 3, 4, 5, 6] := by decide
+
+end CaptureIdentity
 
 /-! ## Compressed payloads: which coding a header value announces
 
